@@ -391,6 +391,8 @@ def part_A(run, alphas):
         rnd = random.Random(run.seed)
         if run.tier == "quick" and len(leaves) > 2500:
             leaves = rnd.sample(leaves, 2500)
+        elif run.tier != "quick" and len(leaves) > 60000:
+            leaves = rnd.sample(leaves, 60000)          # the widest alphabet (two1w) has 160k complete orders: TLC checks them all, 60k are replayed
         for li, leaf in enumerate(leaves):
             st = states[leaf]
             has_nan = any(v[0] == NAN for c in st.cases for v in st.data[c].values())
